@@ -183,5 +183,53 @@ def consults : Sampler → Args → Nat
 /-- `TraceIdRatioBasedSampler(ratio)` -/
 def mkRatio (d : Dbl) : Option Sampler := (thresholdD d).map .ratio
 
+/-! ## a span started through a `Tracer` (the sampling part of `sdk/src/trace/tracer.cc`, `Tracer::StartSpan`) -/
+
+/-- how `StartSpan` is told its parent: `options.parent` a `SpanContext`, `options.parent` a `Context` carrying the span,
+    the span active on the calling thread (default options), or a `Context` with the `is_root_span` flag (whatever span
+    is active) -/
+inductive ParentVia where
+  | spanContext
+  | context
+  | active
+  | root
+  deriving Repr, DecidableEq
+
+/-- the `parent_context` the sampler is asked about (no other span is active on the thread): an explicit parent counts
+    only when it is valid, the active span's context is taken as it is, an explicit root has none -/
+def effectiveParent (via : ParentVia) (p : SpanContext) : SpanContext :=
+  match via with
+  | .root => SpanContext.invalid
+  | .active => p
+  | _ => if p.isValid then p else SpanContext.invalid
+
+/-- what `StartSpan` makes of the sampler's answer -/
+structure SampledSpan where
+  /-- the parent's trace id when it has a valid parent, else the generated one -/
+  traceId : Bytes
+  /-- the result the sampler gave (asked once, about the effective parent and that trace id) -/
+  result : Result
+  /-- `kIsSampled` of the new span context: set iff `IsSampled()`, cleared otherwise (whatever the parent's flags) -/
+  sampled : Bool
+  /-- a recording `Span` (true) or a `NoopSpan` carrying the span context (false) -/
+  recording : Bool
+  /-- the sampler's trace state if it gave one, else the valid parent's, else the empty default -/
+  traceState : TraceStateEntries
+  /-- invocations of a user-provided sampler -/
+  consulted : Nat
+
+def sampleSpanWith (rnd : Rat → Rat) (s : Sampler) (via : ParentVia) (p : SpanContext) (generated : Bytes) : SampledSpan :=
+  let pe := effectiveParent via p
+  let tid := if pe.isValid then pe.traceId else generated
+  let a : Args := ⟨pe, tid, [], 0, [], []⟩
+  let r := shouldSampleWith rnd s a
+  { traceId := tid, result := r, sampled := r.isSampled, recording := r.isRecording,
+    traceState := (match r.traceState with
+      | some ts => ts
+      | none => if pe.isValid then pe.traceState else []),
+    consulted := consults s a }
+
+def sampleSpan : Sampler → ParentVia → SpanContext → Bytes → SampledSpan := sampleSpanWith fl
+
 end Sampler
 end Otel
